@@ -130,8 +130,17 @@ func (e *Exec) globalObj(g *ssa.Global) *Object {
 	}
 	et := g.Type().(*types.Pointer).Elem()
 	var v Value
-	if g.Pkg != nil && !e.World.InitPkgs[g.Pkg.Pkg.Path()] {
+	if g.Pkg != nil && !e.World.InitPkgs[g.Pkg.Pkg.Path()] && !e.foreignInit[g.Pkg] {
 		v = e.foreignGlobal(g, et)
+		if v == nil {
+			// a package-level variable with a real initial value: execute that package's own
+			// initialiser once (imports' initialisers are still skipped) and read the result
+			e.runForeignInit(g.Pkg)
+			if o, ok := e.globals[g]; ok {
+				return o
+			}
+			v = e.zero(et)
+		}
 	} else {
 		v = e.zero(et)
 	}
@@ -157,8 +166,40 @@ func (e *Exec) foreignGlobal(g *ssa.Global, et types.Type) Value {
 		// nil logger; locations and the charmap are only passed to stubbed functions
 		return e.zero(et)
 	}
-	e.unsupported("read of package-level variable %s of a package whose initialiser is not executed", g.String())
 	return nil
+}
+
+// runForeignInit interprets the synthesized init function of a package outside the repository.
+func (e *Exec) runForeignInit(pkg *ssa.Package) {
+	if e.foreignInit == nil {
+		e.foreignInit = map[*ssa.Package]bool{}
+	}
+	e.foreignInit[pkg] = true
+	ini := pkg.Func("init")
+	if ini == nil || ini.Blocks == nil {
+		return
+	}
+	saved := e.cur
+	t := &Thread{ID: 1000 + len(e.foreignInit), Name: "init:" + pkg.Pkg.Path(), vc: make([]int, 1)}
+	if saved != nil {
+		t.vc = vcCopy(saved.vc)
+		for len(t.vc) <= 0 {
+			t.vc = append(t.vc, 0)
+		}
+	}
+	t.ID = 0
+	e.pushCall(t, &Closure{Fn: ini}, nil, nil, retStop)
+	e.cur = t
+	t.state = tsRunning
+	for t.state == tsRunning {
+		if r := e.step(t, true); r != stCont {
+			break
+		}
+	}
+	e.cur = saved
+	if t.panicking != nil || t.diedPanic != nil {
+		e.unsupported("initialiser of package %s panicked under the engine", pkg.Pkg.Path())
+	}
 }
 
 func (e *Exec) opaqueError(tag string) Value {
